@@ -138,6 +138,20 @@ def history_jobs(cgs, keys):
                                  ops=[A(x) for x in od] + [dict(k="rm", text="", id="pf", id2="")],
                                  universe=["A", "B", "pf", "pr", "ps"]))
                 n += 1
+            # a longer path that states the overlap of this junction and leaves another one open ("*"):
+            # the stated CIGAR still decides which link is meant and in which direction it is read
+            if b == "A":
+                tail_seg, tail_l = "T", "L\tA\t%s\tT\t+\t*" % o2
+                pm = "P\tpm\tA%s,A%s,T+\t%s,*" % (o1, o2, t)
+                pmc = "P\tpmc\tT-,A%s,A%s\t*,%s" % (inv[o2], inv[o1], c)
+            else:
+                tail_seg, tail_l = "T", "L\tB\t%s\tT\t+\t*" % o2
+                pm = "P\tpm\tA%s,B%s,T+\t%s,*" % (o1, o2, t)
+                pmc = "P\tpmc\tT-,B%s,A%s\t*,%s" % (inv[o2], inv[o1], c)
+            for od in ([*segs, "S\tT\t*", l, tail_l, pm, pmc], [pm, pmc, *segs, "S\tT\t*", tail_l, l], [*segs, "S\tT\t*", lc, tail_l, pmc, pm]):
+                jobs.append(dict(id="lh-%d" % n, kind="link", cfg=dict(version="gfa1", vlevel=1),
+                                 ops=[A(x) for x in od], universe=["A", "B", "T", "pm", "pmc"]))
+                n += 1
             # the same oriented pair is looked up again after it has come to denote something else:
             # the segment is renamed and another segment takes its name, then the complement form is
             # offered again (now a new edge), a path over it, and the old link is removed
